@@ -579,6 +579,19 @@ func tryReplay(p *Program, o *Obligation, rf *ReplayFile, frs []*FuncResult) {
 			}
 		}
 	}
+	// hand-written state builder for this obligation, if any
+	if src, err := os.ReadFile(filepath.Join(verifDir, "govc", "builders", sanitize(baseObl(o.Name))+"_test.go.txt")); err == nil {
+		rf.TestSource = string(src)
+		rf.ReplayNote = "state-builder replay (pre-state reached through the public API in a scratch directory)"
+		out, ok := runReplayTest(o.Func, string(src))
+		rf.TestOutput = out
+		if ok {
+			rf.Replay = "confirmed"
+		} else {
+			rf.Replay = "not-reproduced"
+		}
+		return
+	}
 	if fr == nil || fr.Exec == nil {
 		rf.ReplayNote = "no function context for this obligation (extra obligation)"
 		return
